@@ -88,6 +88,34 @@ static void push_file(FILE *file) {
     file_stack[file_stack_p++] = file;
 }
 
+/* A copy of the text that can stand inside a double quoted attribute value: the XML
+   metacharacters as entities, and the control characters XML cannot carry at all
+   (not even as character references) spelled out as \xNN */
+static char *xml_escaped(const char *text) {
+    char *escaped = (char *)malloc(strlen(text) * 6 + 1);
+    char *end = escaped;
+
+    if (escaped == NULL)
+        PANIC("Out of memory for XML output");
+    for (; *text != '\0'; text++) {
+        unsigned char c = (unsigned char)*text;
+        switch (c) {
+        case '"':  end += sprintf(end, "&quot;"); break;
+        case '&':  end += sprintf(end, "&amp;"); break;
+        case '<':  end += sprintf(end, "&lt;"); break;
+        case '>':  end += sprintf(end, "&gt;"); break;
+        case '\'': end += sprintf(end, "&apos;"); break;
+        default:
+            if (c < 0x20 && c != '\t' && c != '\n' && c != '\r')
+                end += sprintf(end, "\\x%02x", c);
+            else
+                *end++ = (char)c;
+        }
+    }
+    *end = '\0';
+    return escaped;
+}
+
 static char *indent(TestReporter *reporter) {
     static char first_buffer[1000];
     static char *buffer = first_buffer;
@@ -236,35 +264,16 @@ static void xml_show_skip(TestReporter *reporter, const char *file, int line) {
     append_to_child_output(already_written);
 }
 
+static void concat_escaped(const char *text) {
+    char *escaped = xml_escaped(text);
+    output = concat(output, escaped);
+    free(escaped);
+}
+
 static void xml_concat_escaped_message(const char *message, va_list arguments) {
     char buffer[1000];
     vsnprintf(buffer, sizeof(buffer)/sizeof(buffer[0]), message, arguments);
-
-    size_t current_char_position = 0;
-    for (; current_char_position < strlen(buffer); current_char_position++) {
-        switch (buffer[current_char_position]) {
-            case '"':
-                output = concat(output, "&quot;");
-                break;
-            case '&':
-                output = concat(output, "&amp;");
-                break;
-            case '<':
-                output = concat(output, "&lt;");
-                break;
-            case '>':
-                output = concat(output, "&gt;");
-                break;
-            case '\'':
-                output = concat(output, "&apos;");
-                break;
-            default: {
-                char single_char[2] = {0};
-                single_char[0] = buffer[current_char_position];
-                output = concat(output, single_char);
-            }
-        }
-    }
+    concat_escaped(buffer);
 }
 
 static void xml_show_fail(TestReporter *reporter, const char *file, int line, const char *message, va_list arguments) {
